@@ -1,5 +1,6 @@
 import MobiusModel.WireLemmas
 import MobiusModel.WireLemmas2
+import MobiusModel.WireLemmas3
 import MobiusModel.Drain
 import MobiusModel.Generated.Consts
 import MobiusModel.Generated.Readers
@@ -99,6 +100,41 @@ theorem file_name_with_info_decode_encode (f : FileNameWithInfo) (h : f.WF) :
 theorem resume_decode_encode (forks : List ForkInfo) (h : ∀ f ∈ forks, f.WF) (hn : forks.length < 256) :
     resumeDecode (resumeEncode forks) = .ok forks :=
   resumeDecode_encode forks h hn
+
+/-- Information fork of a flattened file object: decoding the emitted fork yields the original fork
+    (name, comment, type/creator codes, dates), its length equals the declared `DataSize`
+    (74 + |name| + |comment|).  The name bound is the decoder's own 16-bit arithmetic. -/
+theorem info_fork_decode_encode (i : InfoFork) (h : i.WF) (hn : i.name.length + 74 < 65536) :
+    InfoFork.decode i.encode = .ok i ∧ i.encode.length = i.size :=
+  ⟨InfoFork.decode_encode' i h hn, InfoFork.encode_length i h.1⟩
+
+example : (⟨[1,2,3,4], [5,6,7,8], [9,9,9,9], [0,0,0,0], [0,0,0,0], List.replicate 32 0, List.replicate 8 7,
+    List.replicate 8 8, [0,0], [104, 105], [33]⟩ : InfoFork).WF := by
+  simp [InfoFork.WF, InfoFork.fixedWF]
+
+/-- Transfer preamble: the 16 bytes a transfer connection starts with decode to the reference number
+    and size they were built from, whatever follows them on the stream. -/
+theorem transfer_preamble_decode_encode (ref size : Nat) (hr : ref < 4294967296) (hs : size < 4294967296) (rest : Bytes) :
+    transferDecode (transferPreamble ref size ++ rest) = .ok (ref, size) :=
+  transferDecode_preamble ref size hr hs rest
+
+/-- Handshake: every emitted client handshake is accepted, whatever versions it names. -/
+theorem handshake_accepted (ver sub : Nat) (rest : Bytes) : handshakeValid (handshakeBytes ver sub ++ rest) = true :=
+  handshakeValid_bytes ver sub rest
+
+/-- Article list (field 321): a client parsing the emitted entries gets exactly the entries, in order,
+    nothing left over: every title/poster length prefix equals the bytes that follow. -/
+theorem article_entries_parse_encode (as : List ArtEntry) (h : ∀ a ∈ as, a.WF) :
+    parseArtEntries as.length (artEntriesEncode as) = some as :=
+  parseArtEntries_encode as h
+
+example : (⟨7, List.replicate 8 1, 0, [116], [112, 113], 12⟩ : ArtEntry).WF := by simp [ArtEntry.WF]
+
+/-- Integer fields: 2- and 4-byte encodings decode to the value; any other length is rejected. -/
+theorem decode_int_roundtrip (n : Nat) :
+    (n < 65536 → decodeInt (be16 n) = .ok n) ∧ (n < 4294967296 → decodeInt (be32 n) = .ok n) ∧
+    (∀ d : Bytes, d.length ≠ 2 → d.length ≠ 4 → decodeInt d = .err) :=
+  ⟨decodeInt_be16 n, decodeInt_be32 n, decodeInt_other⟩
 
 /-- The emitted bytes do not depend on the sizes of the buffers the encoder is drained through,
     and emission terminates: for *every* script of buffer sizes ≥ 1 with at least |bytes|+1
